@@ -278,7 +278,7 @@ func harnessC20OTel() {
 
 type c08Key struct{}
 
-//verif:entry property=C08 tier=both bounds="OpenTelemetry observability installed: a context-aware handler (sync or async) that is running when the publish context is cancelled must see the publish context's value and its cancellation" cover="seen"
+//verif:entry property=C08 tier=both bounds="OpenTelemetry observability installed: a context-aware handler (sync or async) that is running when the publish context is cancelled must see the publish context's values (one under a typed key, one under an arbitrary string key) and its cancellation" cover="seen"
 func harnessC08OTelContext() {
 	rec := &recorder{counters: map[string]int64{}, hists: map[string]int{}}
 	obs, err := New(WithTracerProvider(recTracerProvider{rec: rec}), WithMeterProvider(recMeterProvider{rec: rec}))
@@ -288,6 +288,9 @@ func harnessC08OTelContext() {
 	val := vInt(1, 100)
 	base, cancel := context.WithCancel(context.Background())
 	ctx := context.WithValue(base, c08Key{}, val)
+	// a second value under a plain string key of the application's choosing (legacy code does that)
+	skey := vStr("ctx-key")
+	ctx = context.WithValue(ctx, skey, val+1)
 	started, gate := make(chan struct{}), make(chan struct{})
 	var mu sync.Mutex
 	sawValue, sawCancel, ran := false, false, false
@@ -303,9 +306,10 @@ func harnessC08OTelContext() {
 			cancel()
 		}
 		v, ok := hc.Value(c08Key{}).(int)
+		v2, ok2 := hc.Value(skey).(int)
 		mu.Lock()
 		ran = true
-		sawValue = ok && v == val
+		sawValue = ok && v == val && ok2 && v2 == val+1
 		sawCancel = hc.Err() != nil
 		select {
 		case <-hc.Done():
